@@ -138,7 +138,7 @@ CLAIMED.update({
              "(1) for EVERY history and every part vis of the device the scan reaches, a key reads as a miss or a version really "
              "written for it; (2) for histories within run_ok, the latest submission of the key, once its index page is on the "
              "device (in particular once acknowledged), is exactly what a complete scan serves; a logged delete that is the latest "
-             "submission reads as a miss; recovery's winner is never older (in sequence) than any copy the scan sees; the "
+             "submission reads as a miss; recovery's winner is never older (in sequence) than any copy the scan sees and, version order following sequence order (invariant MInv), never an older version; the "
              "invariants hold again after a restart, so the statements compose over repeated crash/restart cycles. "
              "Correspondence: the extracted model's prediction for a crash at every quiescent point of deterministic histories "
              "against the real store reopened on the device image; oracle: every write boundary and 1-/3-page tears of the "
@@ -147,7 +147,7 @@ CLAIMED.update({
                           "correspondence + crash-image oracle",
         note="PARTIAL: crash points inside a batch are states of the model only because the blob index page is one page and is "
              "written after the data it lists (flusher.rs order; checked by the crash-image oracle, seeded change C04-m1 reverses "
-             "it); 'version order follows sequence order' between two flushed copies is used informally for 'never an older one'; "
+             "it); "
              "wrap-around (reclaim in progress at the crash) is covered by the oracle only."),
     "C03": dict(
         text="Theorems: (bytes) for arbitrary bytes read from the device, load hands out an entry only if magic and compression "
